@@ -57,13 +57,14 @@ type PType struct {
 }
 
 type PPkg struct {
-	Dir     string   `json:"dir"`
-	Imports []int    `json:"imports,omitempty"`
-	PkgTags []PTag   `json:"pkg_tags,omitempty"`
-	Types   []PType  `json:"types"`
-	Extra   []string `json:"extra,omitempty"`   // pre-existing extra files
-	Edit    int      `json:"edit,omitempty"`    // content variant of an extra source file (history steps change it)
-	LineDir bool     `json:"linedir,omitempty"` // the extra .go files open with a //line directive ahead of the package clause (earlier outputs name a template, extra.go names the output of a generator in a neighbouring package)
+	Dir      string   `json:"dir"`
+	Imports  []int    `json:"imports,omitempty"`
+	PkgTags  []PTag   `json:"pkg_tags,omitempty"`
+	Types    []PType  `json:"types"`
+	Extra    []string `json:"extra,omitempty"`    // pre-existing extra files
+	Edit     int      `json:"edit,omitempty"`     // content variant of an extra source file (history steps change it)
+	Conflict bool     `json:"conflict,omitempty"` // with zdoc.go: a.go's package comment carries the key of the tag that stands in zdoc.go as well, with the value false — zdoc.go is the later file and wins
+	LineDir  bool     `json:"linedir,omitempty"`  // the extra .go files open with a //line directive ahead of the package clause (earlier outputs name a template, extra.go names the output of a generator in a neighbouring package)
 }
 
 type PGen struct {
@@ -162,7 +163,14 @@ func tagEnc(ts []PTag) string {
 func (p PPkg) docSplit() (inA, inDoc []PTag) {
 	for _, e := range p.Extra {
 		if e == "zdoc.go" && len(p.PkgTags) > 0 {
-			return p.PkgTags[:len(p.PkgTags)-1], p.PkgTags[len(p.PkgTags)-1:]
+			last := p.PkgTags[len(p.PkgTags)-1]
+			inA := append([]PTag{}, p.PkgTags[:len(p.PkgTags)-1]...)
+			if p.Conflict {
+				// two files say different things about one key: files are merged in the order of their names, the later one
+				// (zdoc.go) wins — the effective tags are PkgTags either way
+				inA = append(inA, PTag{K: last.K, V: []string{"false"}})
+			}
+			return inA, p.PkgTags[len(p.PkgTags)-1:]
 		}
 	}
 	return p.PkgTags, nil
